@@ -202,6 +202,104 @@ func runC13(c *Ctx, w *World, r *Report) {
 		if k < 2 {
 			r.Bad("R-WPC1", n+"|sites", w.Pos(fn.Pos()), fmt.Sprintf("expected at least 2 word-scan position sites (first word, following words), found %d", k))
 		}
+		// R-SCANEND: the word scan reaches the word that holds the last position of the range
+		{
+			r.Rule("R-SCANEND", "the scan over the following words runs until the word holding the far end of the range: a position counter runs while pos < end (NextOne) / pos >= i (PrevOne); a word counter k runs while k < N with N >= ceil(end/64), i.e. (end+63)>>6 (NextOne) resp. while k >= i>>6 (PrevOne): rounding the bound the wrong way skips the trailing partial word")
+			badE := ""
+			nscan := 0
+			endL, iL := fa.Lin(fn.Params[2]), fa.Lin(fn.Params[1])
+			eachInstr(fn, func(ins ssa.Instruction) {
+				call, ok := ins.(*ssa.Call)
+				nm := ""
+				if ok {
+					nm = calleeName(call.Common())
+				}
+				if !ok || !(strings.HasPrefix(nm, "math/bits.TrailingZeros") || strings.HasPrefix(nm, "math/bits.LeadingZeros")) {
+					return
+				}
+				b := stripMasks(call.Common().Args[0], "bm")
+				_, idx, ok := asElemLoad(b)
+				if !ok {
+					return
+				}
+				// the loop variable: either idx itself (word counter) or x with idx = x>>6 (position counter)
+				var iv *LoopIV
+				isPos := false
+				if x, c, ok := asShiftRight(idx); ok && c == 6 {
+					if v, ok := fa.InductionOf(x, call.Block()); ok {
+						iv, isPos = v, true
+					}
+				}
+				if iv == nil {
+					if v, ok := fa.InductionOf(idx, call.Block()); ok {
+						iv = v
+					}
+				}
+				if iv == nil {
+					return // the first (masked) word is not in a loop
+				}
+				nscan++
+				if n == "bitmap.NextOne" {
+					if !iv.HasN {
+						badE = "the forward word scan has no upper bound"
+						return
+					}
+					if isPos {
+						if d := iv.N.Sub(endL); !(d.IsConst() && d.K >= 0) {
+							badE = "the forward scan stops at position " + iv.N.String() + ", before end"
+						}
+						return
+					}
+					okN := false
+					if v := fa.AtomValueOfLin(Lin{T: iv.N.T, K: 0}); v != nil {
+						if x, c, ok := asShiftRight(v); ok && c == 6 {
+							if d := fa.Lin(x).Sub(endL); d.IsConst() && d.K+64*iv.N.K >= 63 {
+								okN = true
+							}
+						}
+					}
+					if iv.N.Eq(linAtom("call:builtin len(p0)")) {
+						okN = true
+					}
+					if !okN {
+						badE = "the forward scan over word indexes stops at word " + iv.N.String() + "; it must reach ceil(end/64) = (end+63)>>6 (a bound rounded down skips the trailing partial word)"
+					}
+				} else {
+					// PrevOne: backward; guard pos >= i or k >= i>>6: lower bound on the counter
+					L := fa.Lin(iv.Phi)
+					if isPos {
+						bd := fa.BoundsAt(call.Block(), L.Sub(iL))
+						if !(bd.HasLo && bd.Lo <= 0) {
+							badE = "the backward scan stops before reaching position i"
+						}
+						return
+					}
+					okLo := false
+					for _, cd := range fa.Conds(call.Block()) {
+						D, op, ok := fa.CondRel(cd)
+						if !ok || (op != opGE && op != opGT) {
+							continue
+						}
+						E := L.Sub(D) // bound: k >= E
+						if v := fa.AtomValueOfLin(Lin{T: E.T, K: 0}); v != nil {
+							if x, c, ok := asShiftRight(v); ok && c == 6 && fa.Lin(x).Sub(iL).IsConst() && fa.Lin(x).Sub(iL).K <= 0 {
+								okLo = true
+							}
+						}
+						if len(E.T) == 0 && E.K <= 0 {
+							okLo = true
+						}
+					}
+					if !okLo {
+						badE = "the backward scan over word indexes does not reach word i>>6"
+					}
+				}
+			})
+			if nscan == 0 {
+				badE = "no word scan loop found"
+			}
+			r.Check(badE == "", "R-SCANEND", n, w.Pos(fn.Pos()), badE, fmt.Sprintf("%d scan loop(s) reach the far end of the range", nscan))
+		}
 		// R-CLIP
 		bound := ssa.Value(fn.Params[2]) // end
 		wantHi := true
